@@ -2,6 +2,7 @@
 private.  Oracle: value non-interference - two renderings that differ only in
 the values of guard-refused (or underscore) attributes / items must be
 indistinguishable, and no refused value may occur in the output."""
+import re
 import itertools
 
 from vf.engine import Acc, hyp_run, shrink_failures
@@ -50,7 +51,8 @@ class P:
         self.__dict__.update(kw)
 
     def __repr__(self):
-        return '<P%d>' % self.i
+        # what the object is is part of its (possibly refused) data
+        return '<P%d %s>' % (self.i, getattr(self, 'id', ''))
 
 
 class Seq:
@@ -196,7 +198,7 @@ def objects(run, n=4, numeric=False, make=None):
     for i in range(n):
         order = i if run == 'A' else (n - i) * 3 % 7
         out.append(make(
-            i, pub='PUB%d' % i, idn=i,
+            i, pub='PUB%d' % i, idn=i, id=secret(run, 'i%d' % i),
             sec=secret(run, 's%d' % i, numeric, order)
             if numeric else ('%d-' % order) + secret(run, 's%d' % i),
             _prv=secret(run, 'p%d' % i, numeric, order)
@@ -260,6 +262,12 @@ def channels():
     add('unless-expr', '[<dtml-unless "o.{A} == 1">u</dtml-unless>|'
         '<dtml-var "o.pub">]', expr=True)
     add('call-expr', '[<dtml-call "o.{A}">|<dtml-var "o.pub">]', expr=True)
+    add('expr-attr-try', '[<dtml-try><dtml-var "o.{A}"><dtml-except>'
+        '<dtml-var error_type>:<dtml-var error_value></dtml-try>|'
+        '<dtml-var "o.pub">]', expr=True)
+    add('with-try', '[<dtml-try><dtml-with o><dtml-var {A}></dtml-with>'
+        '<dtml-except><dtml-var error_type>:<dtml-var error_value>'
+        '</dtml-try>|<dtml-var "o.pub">]')
     add('return-expr', '[<dtml-var "o.pub"><dtml-return "o.{A}">]',
         expr=True)
     add('in-expr', '[<dtml-in "(o.{A},)"><dtml-var sequence-item></dtml-in>'
@@ -311,6 +319,13 @@ def channels():
         skip=True, psub='x')
     # item channels
     add('in-items', '[<dtml-in s><dtml-var pub>;</dtml-in>]', kind='item')
+    # a refusal without skip_unauthorized is an error; a handler can show it
+    add('in-items-try', '[<dtml-try><dtml-in s><dtml-var pub>;</dtml-in>'
+        '<dtml-except><dtml-var error_type>:<dtml-var error_value>'
+        '</dtml-try>]', kind='item')
+    add('in-items-batch-try', '[<dtml-try><dtml-in s size=3 orphan=0>'
+        '<dtml-var pub>;</dtml-in><dtml-except><dtml-var error_value>'
+        '</dtml-try>]', kind='item')
     add('in-items-skip', '[<dtml-in s skip_unauthorized><dtml-var pub>;'
         '</dtml-in>]', kind='item', skip=True)
     # the item variables must describe the item that is being shown
@@ -427,7 +442,12 @@ def render(ch, attr, policy, run, guarded=True, index=0):
         out = t(client, ns)
         out = ('text', out if isinstance(out, str) else repr(out))
     except Exception as e:
-        out = ('raise', type(e).__name__)
+        # the message of an error is shown to the visitor as well
+        # (not under AccessControl's policy: its Unauthorized carries the
+        # refused value by its own choice, outside this package)
+        out = ('raise', type(e).__name__,
+               '' if guarded == 'ac' else
+               re.sub(r'0x[0-9a-f]+', '0x', str(e))[:400])
     return out, log
 
 
@@ -448,7 +468,7 @@ def check(case):
     # refused data must not be observable
     if klass in ('denied', 'underscore', 'denied-item'):
         for out in (a, b):
-            if out[0] == 'text' and ('SECRET' in out[1] or 'SECID' in out[1]):
+            if 'SECRET' in out[-1] or 'SECID' in out[-1]:
                 return ('leak:%s:%s:%s' % (group, klass, mode),
                         '%r with %s attribute %r (policy %r): refused value '
                         'in the output %r' % (ch['src'], klass, attr, policy,
@@ -500,6 +520,7 @@ def cases():
                     yield dict(channel=ch['name'], attr=attr, policy=pol,
                                guarded=True, klass=klass)
                     if not ch.get('tree') and not ch.get('psub') and \
+                            not ch['name'].endswith('-try') and \
                             attr not in ('meth', 'secmeth'):
                         # same case under RestrictedDTML + AccessControl
                         yield dict(channel=ch['name'], attr=attr,
@@ -562,7 +583,6 @@ def item_check(case):
                     '%r rendered %r' % (ch['src'], a))
         return None
     if ch['kind'] == 'tree-items':
-        import re
         if a[0] != 'text':
             return ('tree-skip-unauthorized-raises', repr(a))
         got = re.findall(r'PUB(\d+)', a[1])
@@ -580,6 +600,19 @@ def item_check(case):
                     'branches %r refused: rows %r, expected %r' % (
                         denied, got, exp))
         return None
+    # nothing that belongs to a refused item is observable, neither in the
+    # text nor in the message of an error
+    b, _ = render(ch, 'pub', case['policy'], 'B', True, case.get('index', 0))
+    for run, out in (('A', a), ('B', b)):
+        for i in denied:
+            k = int(str(i).lstrip('k'))
+            if ch.get('index_expr') and k != case.get('index'):
+                continue
+            m = re.search(r'SECRET-%s-[a-z]%d\b' % (run, k), out[-1])
+            if m:
+                return ('leak:%s:denied-item:guarded' % name,
+                        '%r with items %r refused: %r is observable in %r'
+                        % (ch['src'], denied, m.group(0), out))
     if a[0] == 'text':
         shown = a[1]
         for i in denied:
